@@ -40,6 +40,10 @@ CTX = {
         "UPPER-const-in-class": (["class K:", "    MAX_N = {t}"], "const"),
         "range": (["def f(q):", "    for i in range({t}):", "        q += i", "    return q"], "small-int"),
         "enumerate": (["def f(xs):", "    for i, x in enumerate(xs, {t}):", "        pass"], "small-int"),
+        "str-format-mod": (["def f(q):", "    return 'n=%d' % {t}"], None),
+        "str-concat-call": (["def f(q):", "    return 'n=' + str({t})"], None),
+        "subscript": (["def f(q):", "    return q[{t}]"], None),
+        "kwarg": (["def f(q):", "    return g(q, size={t})"], None),
         "str-repeat": (["def f(q):", "    return '-' * {t}"], "int-only"),
         "str-repeat-left": (["def f(q):", "    return {t} * '-'"], "int-only"),
     },
